@@ -1,0 +1,32 @@
+//go:build verif
+
+package parser
+
+// Contracts for the verification machinery in /verif (comment-only; no executable code).
+
+//@ import comb "github.com/moorara/algo/parser/combinator"
+
+// The string input: a non-empty suffix of the pattern (Remaining returns nil instead of an empty input).
+//@ func newStringInput(s string) comb.Input
+//@   requires len(s) > 0
+
+//@ func (s *stringInput) Current() (rune, int)
+//@   requires s != nil && len(s.runes) >= 1
+
+//@ func (s *stringInput) Remaining() comb.Input
+//@   requires s != nil && len(s.runes) >= 1
+//@   ensures len(s.runes) == 1 ==> result == nil
+
+// Parse: a pattern is accepted only if the top-level combinator consumed ALL of it. Nothing is known about
+// what p.regex leaves over (the dependency's combinators stop wherever they stop), so this holds only
+// because Parse itself checks.
+//@ func (p *Parser) Parse(regex string) (comb.Output, bool)
+//@   requires p != nil && p.regex != nil
+//@   modifies everything
+//@   ensures @whole-input result1 ==> result0.Remaining == nil
+//@   ensures @not-empty len(regex) == 0 ==> !result1
+
+//@ func New(m Mappers) *Parser
+//@   requires m != nil
+//@   fresh-result
+//@   ensures result != nil && result.regex != nil
